@@ -15,6 +15,9 @@ import traceback
 
 ROOT = os.path.dirname(os.path.dirname(os.path.abspath(__file__)))
 EVIDENCE_DIR = os.path.join(ROOT, 'evidence')
+if os.environ.get('VERIF_REPO', '/repo').rstrip('/') != '/repo':
+    # runs against a scratch copy (mutant self-tests) must not overwrite the committed evidence
+    EVIDENCE_DIR = os.path.join(ROOT, 'evidence_scratch')
 REPLAY_DIR = os.path.join(ROOT, 'replays')
 KNOWN = os.path.join(ROOT, 'known_findings.json')
 VENV_PY = '/venv/bin/python'
